@@ -9,9 +9,6 @@ package ro
 //@ site ContextReset
 //@   ctx-exempt next error complete : ContextReset is the declared exception of the context-flow rule - it replaces the context by the one supplied to the operator (made non-nil by its constructor)
 
-//@ site MergeAll
-//@   assume-ctx-set onDone : parentCtx is written by the outer completion callback before the counter can reach zero (the counter starts at 1 for the outer source); to be replaced by the machine contract of MergeAll
-
 //@ site OnErrorResumeNextWith
 //@   assume-ctx-set subscribe : lastCtx is written by the terminal callback of every attempt; Wait() only returns after that callback for a source that honours the Observable contract
 
